@@ -9,6 +9,7 @@ import ClockBound.Model.DriverPoller
 import ClockBound.Model.DriverWorld
 import ClockBound.Model.Crash
 import ClockBound.Model.DriverThreads
+import ClockBound.Model.DriverHeader
 namespace ClockBound.Driver
 open ClockBound
 
@@ -382,6 +383,11 @@ def processLine (line : String) : String :=
   | "sl" :: args => slLine args impl
   | "crashpt" :: args => crashLine args impl
   | "thr" :: args => (DriverT.line "thr" args impl).getD "bad-op | |"
+  | "open" :: args => (DriverH.line "open" args impl).getD "bad-op | |"
+  | "seg" :: args => (DriverH.line "seg" args impl).getD "bad-op | |"
+  | "snap" :: args => (DriverH.line "snap" args impl).getD "bad-op | |"
+  | "sandwich" :: args => (DriverH.line "sandwich" args impl).getD "bad-op | |"
+  | "cabi" :: args => (DriverH.line "cabi" args impl).getD "bad-op | |"
   | "slx" :: args => slxLine args impl
   | "slaba" :: _ =>
     -- K1 replay on the real code only (a 360 000-step execution is not simulated by the model): the
